@@ -669,4 +669,14 @@ theorem convolve2d_refines (data kernel : List F) (nx ny a b : Nat) (s : State F
   simp only [convStart, setS_same]
   exact rowsFold_replicate data kernel nx ny a b
 
+/-- a state holding the two arrays and nothing else -/
+def convState (data kernel : List F) (nx ny nkx nky : Nat) : State F :=
+  { (State.empty : State F) with
+    fa := fun x => if x = "data" then data else if x = "kernel" then kernel else []
+    shp := fun x => if x = "data" then [nx, ny] else if x = "kernel" then [nkx, nky] else [] }
+
+theorem convState_input (data kernel : List F) (nx ny nkx nky : Nat) :
+    ConvInput data kernel nx ny nkx nky (convState data kernel nx ny nkx nky) :=
+  ⟨rfl, by simp [convState], by simp [convState], by simp [convState], by simp [convState]⟩
+
 end XrsVerif.Focal
